@@ -1,5 +1,6 @@
 import TddaVerif.Drv.Util
 import TddaVerif.Model.Rexpy
+import TddaVerif.Model.RexpySeries
 import TddaVerif.Model.RexpySampled
 import TddaVerif.Model.RexpyRender
 open Lean TddaVerif.Drv TddaVerif.Py TddaVerif.Rexpy
@@ -50,6 +51,16 @@ def handle (op : String) (j : Json) : Option (R Json) :=
           ("rex", ofList (fun p => ofChars (patternText E dialect tag wsWrap p)) ps),
           ("ast", ofList (ofList fragJson) ps),
           ("extras", ofChars E)])
+  | "rx.pdextract" => some do
+      let T ← parseTable (← fld j "table")
+      let cols ← asList (asList (asOpt asChars)) (← fld j "cols")
+      let items := pdextractItems cols
+      match extract T {} items with
+      | none => throw "AssertionError"
+      | some (ps, E, wsWrap) =>
+        pure (Json.mkObj [
+          ("rex", ofList (fun p => ofChars (patternText E 1 false wsWrap p)) ps),
+          ("strings", ofList (fun (it : Option Line × Nat) => ofOpt ofChars it.1) items)])
   | "rx.extract_sampled" => some do
       let T ← parseTable (← fld j "table")
       let o ← parseOpts (← fld j "opts")
